@@ -23,7 +23,8 @@ SonarPart(tag, p) ==
 
 SonarDoc(d) == [issues |-> SonarPart("i", d[1]), hotspots |-> SonarPart("h", d[2])]
 
-\* a SARIF result may list several locations; one in ANOTHER file makes it a finding of that file too
+\* a SARIF result may list several locations; one in ANOTHER file makes it a finding of that file too; a second location
+\* in the SAME file ("samefile") does not make it two findings of that file
 OtherFile(f) == IF f = "f1" THEN "f2" ELSE "f1"
 SarifRun(r, ri) ==
   [tool |-> r[1],
